@@ -904,4 +904,30 @@ theorem waits_parks_then_yields_the_finished_target :
     (((((wokenByMessage { selectWaitsForAnswer := true }).selectPure { selectWaitsForAnswer := true } 0 0 raceSources).1.notifyPending 0 1).wake 0).selectPure
         { selectWaitsForAnswer := true } 0 0 raceSources).2 = some (.completed (.value 5)) := by decide
 
+/-! ## Variant `releaseDead` (notes/C06-fixes/01, `release_dead_roots`) -/
+
+/-- flag off = the code without the repair: `notify_message` is the old function -/
+theorem release_off_is_old (persistent : Nat → Bool) (ex : Exec V) (pid : Nat) (m : V) :
+    Exec.notifyMessageV {} persistent ex pid m = ex.notifyMessage pid m := rfl
+
+/-- what a released (dead, non-persistent) process record keeps: its result — what awaiters and GetResult read — and
+    nothing else the select machinery ever looks at -/
+theorem released_record (p : Proc V) :
+    p.releaseDead.result = p.result ∧ p.releaseDead.mailbox = [] ∧ p.releaseDead.awaiting = [] ∧
+    p.releaseDead.awaitingFailed = [] ∧ p.releaseDead.sel = none := ⟨rfl, rfl, rfl, rfl, rfl⟩
+
+/-- flag on: a message for a process that has failed is dropped — the record is untouched, only the wake-up of
+    `notify_message` stays (the messages of a LIVE process are untouched by the variant: `untaken_preserved` still
+    speaks about every mailbox a select can see) -/
+theorem message_for_failed_process_dropped (persistent : Nat → Bool) (ex : Exec V) (pid : Nat) (m : V) (p : Proc V)
+    (e : ErrClass) (hp : ex.getProc pid = some p) (hr : p.result = some (.err e)) :
+    Exec.notifyMessageV { releaseDead := true } persistent ex pid m = ex.wake pid := by
+  simp [Exec.notifyMessageV, hp, Proc.deliverable, hr]
+
+/-- flag on: a live process receives exactly as before -/
+theorem message_for_live_process_delivered (persistent : Nat → Bool) (ex : Exec V) (pid : Nat) (m : V) (p : Proc V)
+    (hp : ex.getProc pid = some p) (hr : p.result = none) :
+    Exec.notifyMessageV { releaseDead := true } persistent ex pid m = ex.notifyMessage pid m := by
+  simp [Exec.notifyMessageV, hp, Proc.deliverable, hr]
+
 end C05
